@@ -182,6 +182,16 @@ def execute_step(m: Machine, step, prop_of):
                 t[0] + step["lo"] * (t[-1] - t[0]))
             hi = None if step["hi"] is None else float(
                 t[0] + step["hi"] * (t[-1] - t[0]))
+            if "abs" in step:
+                # absolute bounds: 0.0, or exactly the k-th stamp
+                def resolve(v):
+                    if isinstance(v, list):
+                        return float(t[v[0] % len(t)])
+                    return v
+                lo, hi = resolve(step["abs"][0]), resolve(step["abs"][1])
+                if lo is not None and hi is not None and lo > hi:
+                    lo, hi = hi, lo
+                m.probe_hit("time_range_absolute_bounds")
             step["_expect_ids"] = [
                 i for i in range(len(t))
                 if t[i] >= (t[0] if lo is None else lo) and t[i] <=
@@ -731,6 +741,8 @@ def gen_object_spec(rng, small=True):
         "t0": rng.choice([0.0, 1.6e9, 100.0]),
         "dt": rng.choice([0.1, 0.05, 1.0]),
     }
+    if rng.random() < 0.25:
+        profile["tzero"] = rng.choice(["first", "mid"])
     spec = {"ctor": rng.choice(["se3", "xyzquat"]),
             "stamped": rng.random() < 0.7, "n": n,
             "data_seed": rng.getrandbits(32), "profile": profile}
@@ -802,7 +814,12 @@ def gen_step(m: Machine, rng, uid):
             if lo is not None and hi is not None and lo > hi:
                 if rng.random() < 0.7:
                     lo, hi = hi, lo
-            return {"op": op, "uid": uid, "obj": e.uid, "lo": lo, "hi": hi}
+            st = {"op": op, "uid": uid, "obj": e.uid, "lo": lo, "hi": hi}
+            if rng.random() < 0.3:
+                pick = lambda: rng.choice([0.0, None, [rng.randrange(64)],
+                                           [rng.randrange(64)]])
+                st["abs"] = [pick(), pick()]
+            return st
         if op in ("align", "align_origin"):
             if not budget_ok:
                 return None
